@@ -71,6 +71,40 @@ PROPS = {
                 "Non-trivial: both succeed and the costs differ.",
         "assumptions": COMMON_ASSUMPTIONS,
     },
+    "C12": {
+        "variants": {"quick": ["rel", "dbg"], "thorough": ["rel", "dbg", "miri"]},
+        "budget_s": (25, 1200),
+        "min_nontrivial": {"quick": 2000, "thorough": 20000},
+        "must_observe": ["restores", "maybe_restore_replace", "maybe_restore_noreplace", "substr_of_inline_atom", "substr_of_heap_atom"],
+        "rule": "Random histories (10-2000 operations) over the public allocator API: new_atom, new_small_number, new_number/new_malachite_number/new_u64/new_i64, new_pair, new_substr (valid and invalid bounds, "
+                "inline and heap parents), new_concat (0-4 terms), new_g1/new_g2, add_ghost_atom/pair, checkpoint/restore_checkpoint (LIFO, also repeated and multi-level), transparent checkpoints, "
+                "maybe_restore_with_node. A reference model (atoms start at 2, heap at 1; +1 atom per atom op; +len heap except substr +0; concat +new_size; pair +1; full restore -> values at checkpoint; "
+                "transparent/value-preserving restore unchanged; failed op unchanged) is compared with atom_count/pair_count/heap_size after EVERY operation. Non-trivial: history contains a restore and a substring.",
+        "assumptions": COMMON_ASSUMPTIONS + ["API preconditions respected: LIFO checkpoints, nodes created after a restored checkpoint are dead, concat size equals the sum of its terms"],
+    },
+    "C13": {
+        "variants": {"quick": ["rel", "dbg"], "thorough": ["rel", "dbg"]},
+        "budget_s": (30, 1500),
+        "min_nontrivial": {"quick": 2000, "thorough": 20000},
+        "must_observe": ["alloc_failed_OutOfMemory", "alloc_failed_TooManyAtoms", "alloc_failed_TooManyPairs", "program_sweeps_heap", "program_sweeps_atoms", "program_sweeps_pairs", "decoder_sweeps"],
+        "rule": "(1) Lock-step histories: the same random allocator history runs on an allocator with a 1-600 byte heap limit and atom/pair counters pre-loaded (add_ghost_*) to 0-40 from 62,500,000, and on an unlimited shadow; "
+                "the shadow's measured deltas predict for every operation whether the limited one must succeed or fail and with which error; after every op counts<=caps, failed ops leave counts and all live node contents unchanged. "
+                "(2) Headroom sweeps of whole programs: for heap/atoms/pairs every room d in 0..need+2 is run; success set must be upward closed, failures must carry the matching error, successes equal the unlimited result, and "
+                "for guard-free programs the minimal room equals the final delta. (3) node_from_bytes_backrefs and the legacy decoder swept together around the pair cap. Non-trivial: a sweep/history saw both a limit failure and a success next to the cap.",
+        "assumptions": COMMON_ASSUMPTIONS + ["'would exceed the cap' is judged with the allocator's own per-operation deltas measured on an unlimited twin (the accounting itself is C12's subject)"],
+    },
+    "C14": {
+        "variants": {"quick": ["rel", "dbg"], "thorough": ["rel", "dbg", "miri"]},
+        "budget_s": (25, 1200),
+        "exhaustive_key": "exhaustive_byte_strings",
+        "min_nontrivial": {"quick": 2000, "thorough": 20000},
+        "must_observe": ["exhaustive_byte_strings", "restores", "maybe_restore_replace"],
+        "rule": "Exhaustive: every byte string of length <=2 (quick) / <=3 (thorough) through new_atom and a forced-heap copy: atom/atom_len/small_number/number/fits_in_small_atom/atom_eq and inline-iff-small; every integer in [-70000,70000], "
+                "+-2^k+-1 (k<=512) and random values up to 4 KiB through new_number/new_malachite_number/new_u64/new_i64 against an independent minimal two's-complement encoder. Histories as in C12 with a content model: after every restore, "
+                "every failed op and every 16 ops ALL live nodes are re-read (atom, atom_len, sexp, small_number, number, malachite_number) and random atom pairs of all representation combinations go through atom_eq. "
+                "Non-trivial: byte strings that are negative or non-canonical; integers outside the inline range; histories with restore+substring.",
+        "assumptions": COMMON_ASSUMPTIONS,
+    },
     "C25": {
         "variants": {"quick": ["rel", "dbg", "asan"], "thorough": ["rel", "dbg", "asan", "miri"]},
         "budget_s": (25, 1200),
